@@ -1091,6 +1091,7 @@ fn check_c07(w: &World, s: &Step, resp: Option<&Response>, pre: &Obs, post: &Obs
         // "within its unexpired allowance": the deadline an allowance is judged by is the one admins set
         check_grant_expiry(prop, s, resp.is_some(), pre, post, at)?;
     }
+    check_update_admins_applied(prop, s, resp.is_some(), post, at)?;
     let Call::Execute(msgs) = &s.call else {
         // nothing but Execute re-dispatches anything
         if let Some(r) = resp {
@@ -1146,6 +1147,18 @@ fn u256(x: u128) -> Uint256 {
     Uint256::from(x)
 }
 
+
+
+/// A successful UpdateAdmins replaces the admin list by exactly the submitted one ("current admin" in the
+/// statements means: member of the list the last successful UpdateAdmins installed).
+fn check_update_admins_applied(prop: &str, s: &Step, ok: bool, post: &Obs, at: &str) -> Result<(), Violation> {
+    if let (true, Call::UpdateAdmins(list)) = (ok, &s.call) {
+        if post.admins != *list {
+            return Err(v(prop, "update-admins-not-applied", format!("{at}: UpdateAdmins({:?}) succeeded but AdminList reports {:?}", list, post.admins)));
+        }
+    }
+    Ok(())
+}
 
 /// Grants follow the cw20-style rule the contract's README refers to ("similar to cw20
 /// IncreaseAllowance / DecreaseAllowance"): `expires: Some(e)` sets the deadline to e, `expires: None`
@@ -1342,6 +1355,7 @@ fn check_c08(w: &World, s: &Step, ok: bool, pre: &Obs, post: &Obs, at: &str, ctx
 #[allow(clippy::too_many_arguments)]
 fn check_c17(w: &World, s: &Step, ok: bool, pre: &Obs, post: &Obs, at: &str, ctx: &mut CaseCtx, t: &mut Track) -> Result<(), Violation> {
     let prop = "C17";
+    check_update_admins_applied(prop, s, ok, post, at)?;
     let sender = w.senders[s.sender].as_str();
     let admin = pre.is_admin(sender);
     let is_modify = matches!(s.call, Call::Freeze | Call::UpdateAdmins(_));
